@@ -1,6 +1,7 @@
 //! `vh` — correspondence harness: runs the real rumqttc / rumqttd code in-process on
 //! generated inputs and prints one line per operation (`<op tokens> => <observed output>`),
 //! which the Lean driver `mdriver` replays on the model.
+mod admit;
 mod clog;
 mod cloop;
 mod codec;
@@ -8,6 +9,7 @@ mod cstate;
 mod frame;
 mod tables;
 mod router;
+mod stack;
 mod routergen;
 mod topic;
 mod util;
@@ -24,6 +26,8 @@ fn main() {
         "topic" => topic::run(&opts),
         "router" => router::run(&opts),
         "clog" => clog::run(&opts),
+        "admit" => admit::run(&opts),
+        "stack" => stack::run(&opts),
         "cloop" => cloop::run(&opts),
         "cstate" => cstate::run(&opts),
         "frame" => frame::run(&opts),
